@@ -728,6 +728,53 @@ def h_range_report(sym):
     sym.goal('decoded')
 
 
+def h_lh_stream(sym):
+    """Localization._incoming, LH_ANGLE_STREAM: two packets in a row (two base stations alternate on the real stream).  Each
+    delivered packet holds the base station id and base angles its own bytes encode, and keeps them after the next packet has
+    been decoded (a consumer may queue packets)."""
+    import copy
+    cf = MiniCF()
+    loc = Localization(cf)
+    got = []
+    loc.receivedLocationPacket.add_callback(got.append)
+    snaps = []
+    enc = []
+    for k in range(2):
+        bs = sym.int(f'bs{k}', 0, 255)
+        # the value decoding itself is decided by lh_angle[k] for all bit patterns; here the base angles are solver-chosen
+        # from a pool (concrete after the fork), what is symbolic is which packet carries what
+        pool = [0.0, 1.5, -0.25, 3.0e-3]
+        bx = list(struct.pack('<f', pool[sym.choice(f'bx{k}', len(pool))]))
+        by = list(struct.pack('<f', pool[sym.choice(f'by{k}', len(pool))]))
+        offs = [[0x3c00, 0xb800 - 65536, 0x0001], [0x7bff, 0x0400, 0x8000 - 65536]] if k == 0 else \
+               [[0x3800, 0x0000, 0xbc00 - 65536], [0x0001, 0x3c00, 0x4000]]
+        body = [bs] + bx + list(struct.pack('<hhh', *offs[0])) + by + list(struct.pack('<hhh', *offs[1]))
+        pk = CRTPPacket(0x61)
+        pk.data = struct.pack('<' + 'B' * 22, Localization.LH_ANGLE_STREAM, *body)
+        loc._incoming(pk)
+        assert len(got) == k + 1 and got[k].type == Localization.LH_ANGLE_STREAM
+        fx = struct.unpack('<f', struct.pack('<BBBB', *bx))[0]
+        fy = struct.unpack('<f', struct.pack('<BBBB', *by))[0]
+        enc.append((bs, fx, fy, offs))
+        snaps.append(copy.deepcopy(got[k].data))
+    for k in range(2):
+        d = got[k].data
+        bs, fx, fy, offs = enc[k]
+        assert d['basestation'] == bs, 'base station id of a delivered packet'
+        for axis, base, o in (('x', fx, offs[0]), ('y', fy, offs[1])):
+            assert len(d[axis]) == 4
+            assert (d[axis][0] != d[axis][0] and base != base) or d[axis][0] == base, \
+                f'packet {k}: {axis}[0] is not the base angle its own bytes encode'
+            for j in range(3):
+                e = base - _fp16_ref(o[j])
+                v = d[axis][j + 1]
+                assert (v != v and e != e) or v == e, f'packet {k}: {axis}[{j + 1}] differs from base - offset of ITS bytes'
+    assert got[0].data is not got[1].data
+    for axis in ('x', 'y'):
+        assert got[0].data[axis] is not got[1].data[axis], 'two delivered packets share one angle list'
+    sym.goal('two-packets')
+
+
 def h_compressed_start(sym):
     """CompressedStart.pack: millimetres / tenths of a degree as int16 little endian in the order x,y,z,yaw; overflow raises."""
     which = sym.B['which']
@@ -841,6 +888,9 @@ HARNESSES = [
 ] + [SmtHarness(f'rgb565[{c}]', h_rgb565, lambda v, B: _rgb_concrete(v, B), quick=dict(channel=i), goals=('encoded',),
                 timeout=(600, 1800)) for i, c in enumerate('rgb')] + [
     SmtHarness('rgb565-levels', h_rgb565_levels, lambda v, B: _levels_concrete(v, B), goals=('encoded',), timeout=(300, 900)),
+    Harness('lh_stream[two packets]', h_lh_stream, goals=('two-packets',), timeout=(300, 900), smt_timeout=1.5,
+            note='two angle-stream packets in a row through Localization._incoming: base station id symbolic, base angles solver-chosen '
+                 'from a pool, sensor offsets concrete; the first delivered packet is unchanged by decoding the second'),
     Harness('range_report', h_range_report, quick=dict(n=2), thorough=dict(n=4), goals=('decoded',), timeout=(300, 1800), smt_timeout=1.5),
 ] + [Harness(f'compressed_segment[{n}]', h_compressed_segment, quick=dict(axis=a, len=l), goals=('packed', 'overflow-raises'),
              timeout=(400, 900), smt_timeout=1.5, per_path=300.0) for n, a, l in (('x,1', 0, 1), ('z,7', 2, 7), ('yaw,3', 3, 3))
